@@ -225,12 +225,25 @@ where
             // these are for the threads to listen to, we don't need them anymore
             drop(out_tx);
             drop(in_rx);
+            // If the channel is full the calling thread processes the item
+            // itself instead of blocking: when it is the only thread of the
+            // pool, the tasks spawned above cannot run until it yields
+            let mut init = map_init.clone();
+            let mut res = A::default();
             for val in self {
-                in_tx.send(val).unwrap();
+                match in_tx.try_send(val) {
+                    Ok(()) => {}
+                    Err(crossbeam_channel::TrySendError::Full(val)) => {
+                        res = inner_fold(res, map(&mut init, val));
+                    }
+                    Err(crossbeam_channel::TrySendError::Disconnected(_)) => {
+                        panic!("all the mapping tasks have terminated")
+                    }
+                }
             }
             drop(in_tx); // close the channel so the threads will exit when done
             // listen on the output channel for results
-            out_rx.into_rayon_iter().fold(A::default(), outer_fold)
+            out_rx.into_rayon_iter().fold(res, outer_fold)
         })
     }
 
